@@ -64,6 +64,7 @@ pub fn run_cluster(cfg: &ClusterRun) -> RunOutcome {
                     let mut done = 0usize;
                     let mut calls = 0u64;
                     let mut samples = Vec::new();
+                    let mut sig_counts: std::collections::BTreeMap<String, usize> = Default::default();
                     loop {
                         if stop.load(Ordering::Relaxed) {
                             break;
@@ -100,8 +101,15 @@ pub fn run_cluster(cfg: &ClusterRun) -> RunOutcome {
                         let ExecResult { stats, .. } = &r;
                         local.merge(stats.clone());
                         if bad {
-                            if fails.len() < 50 {
+                            // keep a few executions per distinct signature so that a frequent
+                            // finding cannot crowd out a rare one
+                            let sig = r.violations[0].sig.clone();
+                            let c = sig_counts.entry(sig).or_insert(0usize);
+                            *c += 1;
+                            if *c <= 3 && fails.len() < 400 {
                                 fails.push(r);
+                            } else {
+                                local.add("failures_not_kept", 1);
                             }
                             if sov {
                                 stop.store(true, Ordering::Relaxed);
@@ -231,6 +239,99 @@ pub fn main(args: &[String]) -> i32 {
                 0
             } else {
                 1
+            }
+        }
+        "debug-progress" => {
+            install_panic_hook();
+            let seed: u64 = arg(args, "--seed").and_then(|s| s.parse().ok()).unwrap_or(1);
+            let p = Profile::parse(arg(args, "--profile").unwrap_or("mixed")).unwrap();
+            let actions: usize = arg(args, "--actions").and_then(|s| s.parse().ok()).unwrap_or(600);
+            let mut d = crate::sim::gen::Driver::new(seed, p, 0);
+            let mut left = actions;
+            while left > 0 && !d.sim.aborted {
+                let chunk = (80 + d.rng.usize(400)).min(left);
+                d.chaos(chunk);
+                left -= chunk;
+                if d.sim.aborted {
+                    break;
+                }
+                if d.rng.chance(1, 3) {
+                    crate::sim::settle::settle(&mut d);
+                }
+            }
+            for n in d.sim.nodes.iter_mut() {
+                if let Some(r) = n.raw.as_mut() {
+                    println!("node {} state {:?} term {}", n.id, r.raft.state, r.raft.term);
+                    let ids: Vec<u64> = r.raft.prs().iter().map(|(id, _)| *id).collect();
+                    for id in ids {
+                        println!("  progress {}: {:?}", id, r.raft.prs().get(id).unwrap());
+                    }
+                    if r.raft.state == raft::StateRole::Leader {
+                        let before = r.raft.msgs.len();
+                        r.raft.send_append(2);
+                        println!("  after send_append(2): msgs {} -> {}", before, r.raft.msgs.len());
+                    }
+                }
+            }
+            0
+        }
+        "check" => {
+            let prop = arg(args, "--prop").unwrap_or("").to_string();
+            let a = crate::check::CheckArgs {
+                prop: prop.clone(),
+                thorough: arg(args, "--tier") == Some("thorough"),
+                seed: arg(args, "--seed").and_then(|s| s.parse().ok()).unwrap_or(1),
+                out: arg(args, "--out").map(|s| s.to_string()).unwrap_or(format!("/verif/evidence/{}.json", prop)),
+                known: arg(args, "--known").unwrap_or("/verif/known_findings.json").to_string(),
+                replays: arg(args, "--replays").unwrap_or("/verif/replays").to_string(),
+                threads: arg(args, "--threads").and_then(|s| s.parse().ok()).unwrap_or(16),
+                scale: arg(args, "--scale").and_then(|s| s.parse().ok()).unwrap_or(1.0),
+            };
+            match crate::check::spec_of(&prop) {
+                Some(spec) => crate::check::run_cluster_check(&a, spec),
+                None => {
+                    eprintln!("no cluster-engine check registered for {}", prop);
+                    2
+                }
+            }
+        }
+        "replay" => {
+            install_panic_hook();
+            let path = arg(args, "--file").unwrap_or("");
+            let txt = match std::fs::read_to_string(path) {
+                Ok(t) => t,
+                Err(e) => {
+                    eprintln!("cannot read {}: {}", path, e);
+                    return 2;
+                }
+            };
+            let v: serde_json::Value = match serde_json::from_str(&txt) {
+                Ok(v) => v,
+                Err(e) => {
+                    eprintln!("bad replay file: {}", e);
+                    return 2;
+                }
+            };
+            let seed = v["exec_seed"].as_u64().unwrap_or(0);
+            let prof = Profile::parse(v["profile"].as_str().unwrap_or("mixed")).unwrap_or(Profile::Mixed);
+            let actions = v["actions"].as_u64().unwrap_or(600) as usize;
+            let sig = v["signature"].as_str().unwrap_or("").to_string();
+            let prop = v["property"].as_str().unwrap_or("").to_string();
+            let r = run_exec(seed, prof, actions, 200);
+            println!("{}", r.desc);
+            for l in &r.trace {
+                println!("{}", l);
+            }
+            let hit = r.violations.iter().any(|x| x.sig == sig);
+            for x in &r.violations {
+                print_violation(x);
+            }
+            if hit {
+                println!("VIOLATION property={} replay={}", prop, path);
+                1
+            } else {
+                println!("replay did not reproduce {} on the current tree", sig);
+                0
             }
         }
         _ => {
